@@ -128,6 +128,10 @@ func c09Cfg(p c09Params) *WorldCfg {
 			{Kind: "delete", Table: "t1", Where: ForceScan(Leaf{"a", "=", int32(7)})},
 			{Kind: "insert", Table: "t1", Cols: as, Rows: [][]any{{bk[2], "w"}}},
 			{Kind: "insert", Table: "t1", Cols: as, Rows: [][]any{{bk[0], "again"}}},
+			// forty rows of 200 bytes: the heap needs new pages (after a reopen: page ids handed out by the
+			// reopened disk manager) and the keys spread over all block pages of the hash table, also those no
+			// statement has touched since the table was created
+			{Kind: "insert", Table: "t1", Cols: as, Rows: c09HashSpreadRows()},
 		}
 	case "t1-btree":
 		// the B-link tree keeps its own pages and writes its state out at shutdown (catalog API table:
@@ -165,7 +169,7 @@ func c09Cfg(p c09Params) *WorldCfg {
 	if p.Seed == "t1-hash" {
 		domain = func(td *TableDef, c ColDef) []any {
 			if c.Name == "a" {
-				return append(append([]any{}, c17HashBoundaryKeys()...), int32(7))
+				return append(append([]any{}, c17HashBoundaryKeys()...), int32(7), int32(1000), int32(1017), int32(1039))
 			}
 			return nil
 		}
@@ -297,4 +301,12 @@ func init() {
 			return core.ReplayHistory(func() core.Instance { return NewWorld(c09Cfg(rp.Params)) }, rp.History)
 		},
 	})
+}
+
+func c09HashSpreadRows() [][]any {
+	var rows [][]any
+	for i := 0; i < 40; i++ {
+		rows = append(rows, []any{int32(1000 + i), bigStr(fmt.Sprintf("h%02d", i), 200)})
+	}
+	return rows
 }
